@@ -153,8 +153,126 @@ func classifyTarget(fd *ast.FuncDecl) string {
 		if _, ok := c.Args[0].(*ast.Ident); ok {
 			return "TargetAppPath"
 		}
+	case len(c.Args) == 2 && isIdent(c.Args[0], "targetApp") && isIdent(c.Args[1], "targetTable") && tableIsPathButLast(fd):
+		return "TargetAppTable"
 	}
 	return "UnknownTarget"
+}
+
+// tableIsPathButLast: the function assigns, once each,
+//
+//	path := typeRef.GetRef().GetPath()
+//	targetTable := syslutil.JoinTypePath(path[:len(path)-1])
+func tableIsPathButLast(fd *ast.FuncDecl) bool {
+	nPath, nTable, okPath, okTable := 0, 0, false, false
+	ast.Inspect(fd.Body, func(nd ast.Node) bool {
+		as, ok := nd.(*ast.AssignStmt)
+		if !ok || len(as.Lhs) != 1 || len(as.Rhs) != 1 {
+			return true
+		}
+		switch {
+		case isIdent(as.Lhs[0], "path"):
+			nPath++
+			if c, ok := as.Rhs[0].(*ast.CallExpr); ok && len(c.Args) == 0 {
+				okPath = strings.Join(selChainCalls(c.Fun), ".") == "typeRef.GetRef.GetPath"
+			}
+		case isIdent(as.Lhs[0], "targetTable"):
+			nTable++
+			c, ok := as.Rhs[0].(*ast.CallExpr)
+			if !ok || len(c.Args) != 1 {
+				return true
+			}
+			ch := selChain(c.Fun)
+			sl, ok := c.Args[0].(*ast.SliceExpr)
+			if len(ch) != 2 || ch[1] != "JoinTypePath" || !ok || sl.Low != nil || sl.Slice3 || !isIdent(sl.X, "path") {
+				return true
+			}
+			be, ok := sl.High.(*ast.BinaryExpr)
+			if !ok || be.Op != token.SUB {
+				return true
+			}
+			l, ok := be.X.(*ast.CallExpr)
+			lit, ok2 := be.Y.(*ast.BasicLit)
+			okTable = ok && ok2 && isIdent(l.Fun, "len") && len(l.Args) == 1 && isIdent(l.Args[0], "path") && lit.Value == "1"
+		}
+		return true
+	})
+	return nPath == 1 && nTable == 1 && okPath && okTable
+}
+
+// selChainCalls: a.B().C() -> [a B C] (selectors through calls without arguments)
+func selChainCalls(e ast.Expr) []string {
+	switch x := e.(type) {
+	case *ast.Ident:
+		return []string{x.Name}
+	case *ast.SelectorExpr:
+		return append(selChainCalls(x.X), x.Sel.Name)
+	case *ast.CallExpr:
+		if len(x.Args) == 0 {
+			return selChainCalls(x.Fun)
+		}
+	}
+	return []string{"?"}
+}
+
+// classifyRelApp: the single assignment to entityApp in DrawRelation
+func classifyRelApp(fd *ast.FuncDecl) string {
+	if fd == nil {
+		return "UnknownRelApp"
+	}
+	sv := splitVars(fd.Body)
+	n, res := 0, "UnknownRelApp"
+	ast.Inspect(fd.Body, func(nd ast.Node) bool {
+		as, ok := nd.(*ast.AssignStmt)
+		if !ok || len(as.Lhs) != 1 || len(as.Rhs) != 1 || !isIdent(as.Lhs[0], "entityApp") {
+			return true
+		}
+		n++
+		if ch := selChain(as.Rhs[0]); len(ch) == 2 && ch[0] == "viewParam" && ch[1] == "EntityApp" {
+			res = "RelAppParam"
+		}
+		if ix, ok := as.Rhs[0].(*ast.IndexExpr); ok {
+			if id, ok := ix.X.(*ast.Ident); ok && sv[id.Name] {
+				if lit, ok := ix.Index.(*ast.BasicLit); ok && lit.Value == "0" {
+					res = "RelAppFirstToken"
+				}
+			}
+		}
+		return true
+	})
+	if n != 1 {
+		return "UnknownRelApp"
+	}
+	return res
+}
+
+// entityAppsOK: GenerateDataView fills entityApps[entityName] = entityApp next to typeMap[entityName], with
+// entityApp := syslutil.JoinAppName(app.GetName()), and hands EntityApp: entityApps[entityName] to DrawRelation
+func entityAppsOK(fd *ast.FuncDecl) bool {
+	joinOK, fillOK, handOK := false, false, false
+	ast.Inspect(fd.Body, func(nd ast.Node) bool {
+		switch x := nd.(type) {
+		case *ast.AssignStmt:
+			if len(x.Lhs) != 1 || len(x.Rhs) != 1 {
+				return true
+			}
+			if isIdent(x.Lhs[0], "entityApp") {
+				c, ok := x.Rhs[0].(*ast.CallExpr)
+				joinOK = ok && len(c.Args) == 1 && strings.Join(selChain(c.Fun), ".") == "syslutil.JoinAppName" &&
+					strings.Join(selChainCalls(c.Args[0]), ".") == "app.GetName"
+			}
+			if ix, ok := x.Lhs[0].(*ast.IndexExpr); ok && isIdent(ix.X, "entityApps") && isIdent(ix.Index, "entityName") && isIdent(x.Rhs[0], "entityApp") {
+				fillOK = true
+			}
+		case *ast.KeyValueExpr:
+			if isIdent(x.Key, "EntityApp") {
+				ix, ok := x.Value.(*ast.IndexExpr)
+				handOK = ok && isIdent(ix.X, "entityApps") && isIdent(ix.Index, "entityName")
+			}
+		}
+		return true
+	})
+	return joinOK && fillOK && handOK
 }
 
 // checksTarget: the function contains `if <x>.Types[...] == nil { ...; continue }` before the targetEntity allocation
@@ -407,7 +525,7 @@ func classifyView(fd *ast.FuncDecl) string {
 		})
 		return found
 	}
-	n, good := 0, 0
+	n, good, member := 0, 0, 0
 	ast.Inspect(fd.Body, func(nd ast.Node) bool {
 		is, ok := nd.(*ast.IfStmt)
 		if !ok || !mentionsEpname(is.Cond) {
@@ -423,6 +541,15 @@ func classifyView(fd *ast.FuncDecl) string {
 		}
 		l := selChain(be.X)
 		if len(l) != 2 || l[0] != "dataParam" || l[1] != "Epname" {
+			return true
+		}
+		// (fixes C15-3, C15-9) !viewApps[entityApps[entityName]]
+		if un, ok := be.Y.(*ast.UnaryExpr); ok && un.Op == token.NOT {
+			if o, ok := un.X.(*ast.IndexExpr); ok && isIdent(o.X, "viewApps") {
+				if in, ok := o.Index.(*ast.IndexExpr); ok && isIdent(in.X, "entityApps") && isIdent(in.Index, "entityName") {
+					member++
+				}
+			}
 			return true
 		}
 		ne, ok := be.Y.(*ast.BinaryExpr)
@@ -451,6 +578,9 @@ func classifyView(fd *ast.FuncDecl) string {
 	if n == 1 && good == 1 && appNameOK {
 		return "ViewAppEq"
 	}
+	if n == 1 && member == 1 && entityAppsOK(fd) {
+		return "ViewAppsMember" // how viewApps is filled is under the text obligation (DmWrap: GenerateDataView)
+	}
 	return "UnknownView"
 }
 
@@ -473,7 +603,7 @@ func dmShape(repo string) (string, error) {
 	fmt.Fprintf(&b, "Definition shape_of_source : shape := {|\n")
 	fmt.Fprintf(&b, "  sh_rel_key := %s; sh_prim_key := %s; sh_tuple_key := %s; sh_enum_key := %s;\n",
 		classifyKey(m["DrawRelation"]), classifyKey(m["DrawPrimitive"]), classifyKey(m["DrawTuple"]), classifyKey(m["DrawEnum"]))
-	fmt.Fprintf(&b, "  sh_rel_target := %s; sh_rel_guards_short_path := %s; sh_rel_checks_target := %s;\n", classifyTarget(m["DrawRelation"]), guardsShortPath(m["DrawRelation"]), checksTarget(m["DrawRelation"]))
+	fmt.Fprintf(&b, "  sh_rel_target := %s; sh_rel_app := %s; sh_rel_guards_short_path := %s; sh_rel_checks_target := %s;\n", classifyTarget(m["DrawRelation"]), classifyRelApp(m["DrawRelation"]), guardsShortPath(m["DrawRelation"]), checksTarget(m["DrawRelation"]))
 	fmt.Fprintf(&b, "  sh_rel_count_new := %s; sh_rel_count_again := %s;\n", rn, ra)
 	fmt.Fprintf(&b, "  sh_tuple_count_new := %s; sh_tuple_count_again := %s;\n", tn, ta)
 	fmt.Fprintf(&b, "  sh_dispatch := [%s];\n", strings.Join(classifyDispatch(m["GenerateDataView"]), "; "))
